@@ -269,6 +269,19 @@ static var Table_Get(var self, var key);
 
 static int Table_Cmp(var self, var obj) {
   
+  /* Tables holding the same entries are equal whatever slots they occupy */
+  struct Table* t = self;
+  if (type_of(obj) is Table and len(obj) is t->nitems) {
+    bool same = true;
+    var key = Table_Iter_Init(self);
+    while (key isnt Terminal) {
+      if (not mem(obj, key)
+      or  neq(Table_Get(self, key), get(obj, key))) { same = false; break; }
+      key = Table_Iter_Next(self, key);
+    }
+    if (same) { return 0; }
+  }
+  
   int c;
   var item0 = Table_Iter_Init(self);
   var item1 = iter_init(obj);
